@@ -1,7 +1,7 @@
 '''C17 - browser selections return exactly the items that match.'''
 import ast
 
-from ..rules import browser
+from ..rules import browser, patterns
 from .. import effects
 from ..astutil import txt, call_name
 from ..mutate import (Variant, edit_module, find_func, replace_first,
@@ -63,9 +63,10 @@ def check(ctx):
     ctx.run(browser.check_direct_pick)
     ctx.count('functions_analysed', analyzer.functions_analysed)
     ctx.count('call_sites_resolved', analyzer.calls_resolved)
+    ctx.run(patterns.check_patterns, ID)
 
 
-def variants(program):
+def _variants(program):
     out = []
 
     def add(name, kind, editor, expect=None, quick=False, note=''):
@@ -402,3 +403,8 @@ def variants(program):
         sub_browser_derived_index, {'INDEX-OWNER'})
 
     return out
+
+
+def variants(program):
+    from ..variants import patterns as _pv
+    return list(_variants(program)) + _pv.variants(program, ID)
